@@ -66,7 +66,7 @@ PROPS = {
                      "known": {}, "count": []},
                     {"name": "srvsplit", "n": {"quick": 60, "thorough": 3000}, "profiles": ["debug"], "oracle": "oracle_C09"},
                     {"name": "srvhandler", "n": {"quick": 400, "thorough": 20000}, "profiles": ["debug"], "oracle": "oracle_C09", "shard": 60}],
-        "tie_lemmas": ["tie_max_message_size", "tie_limit_operand", "tie_limit_operator", "tie_varint_error_mapping"],
+        "tie_lemmas": ["tie_max_message_size", "tie_limit_operand", "tie_limit_operator", "tie_varint_error_mapping", "tie_split_addend", "tie_split_operator", "tie_split_limit", "tie_split_early_return", "tie_split_shape"],
         "rule": "engine codec (debug = overflow-checked and release profile; in release every decode runs in a confined child process): "
                 "length prefixes of every varint byte length 1..11 (values around every power of two, around the 4 MiB limit, overlong / overflowing / "
                 "non-minimal encodings) followed by 0, 1, 3 and 40 payload bytes; all frames of <= 3 (quick) / 4 (thorough) bytes over a 14-byte boundary alphabet; "
